@@ -903,3 +903,30 @@ def inlined_away(repo, fi):
                     memo.add(c.func.id)
         repo._called_names = memo
     return fi.name not in memo
+
+
+def rule_defaults(rule, repo, items):
+    """items: [(qualname, parameter, expected value, what a caller relying on the default gets otherwise)].  A default is
+    part of the function's behaviour for every caller that omits the argument."""
+    from .model import UNKNOWN
+    for q, param, want, why in items:
+        fi = repo.functions.get(q)
+        key = 'default:%s:%s' % (q.rsplit('.', 2)[-2] + '.' + q.rsplit('.', 1)[-1] if q.count('.') > 2 else q.rsplit('.', 1)[-1], param)
+        if fi is None:
+            rule.undecided(key, '', 'function %s not found' % q)
+            continue
+        d = fi.defaults().get(param)
+        if d is None:
+            if param in fi.params:
+                rule.violated(key, fi.site, '%s: parameter `%s` no longer has a default (%r expected): callers that omit it fail' % (fi.name, param, want), sure=True)
+            else:
+                rule.undecided(key, fi.site, '%s has no parameter `%s`' % (fi.name, param))
+            continue
+        v = repo.fold(d, fi.module, cls=fi.cls)
+        if v is UNKNOWN:
+            rule.undecided(key, fi.site, 'the default of `%s` (%s) does not fold to a constant' % (param, ast.unparse(d)[:40]))
+        elif type(v) is type(want) and v == want:
+            rule.ok(key, fi.site, '%s=%r' % (param, want))
+        else:
+            rule.violated(key, fi.site, '%s: the default of `%s` is %r, the confirmed behaviour needs %r: %s' % (fi.name, param, v if not isinstance(v, bytes) or len(v) < 12 else '%d bytes' % len(v),
+                          want if not isinstance(want, bytes) or len(want) < 12 else '%d zero bytes' % len(want), why), sure=True)
